@@ -337,10 +337,13 @@ theorem C03_rebuild_seq (ty : Ty) (p : Id) (pre post : List Id) (n0 : Nat) (preT
     exact C03_rebuild_seq ty p pre post n0 preT postT bs b _ _ htb hb hrest hok' hs'
 
 /-- **C03_unmount_exact.**  `unmount` detaches exactly the root nodes of the state: the parent's
-children are `pre ++ post` again (serialising as before), and no other node changes. -/
-theorem C03_unmount_exact (v : View) (st : State) (d : Dom) (p : Id) (pre post : List Id)
+children are `pre ++ post` again (serialising as before), and no other node changes.  For the
+states of every stage (`R` = `Eq`, `AttrsEq`, `AttrsSim`), i.e. also after any sequence of
+rebuilds in the item fragment. -/
+theorem C03_unmount_exact {R : List (String × String) → List (String × String) → Prop}
+    (v : View) (st : State) (d : Dom) (p : Id) (pre post : List Id)
     (n0 : Nat) (preT postT : List Tree)
-    (hok : StateOk Eq d v st p pre post) (hs : SiblingsOk d (owned st) p pre post n0 preT postT) :
+    (hok : StateOk R d v st p pre post) (hs : SiblingsOk d (owned st) p pre post n0 preT postT) :
     (unmount st d).kidsOf p = pre ++ post ∧
     (∀ x, x ≠ p → x ∉ st.roots → (unmount st d).get? x = d.get? x) ∧
     (∀ m, n0 ≤ m → serListN m (unmount st d) ((unmount st d).kidsOf p) = some (preT ++ postT)) := by
